@@ -28,6 +28,37 @@ mod pow;
 pub(crate) mod safegcd;
 mod sub;
 
+#[cfg(crypto_bigint_verif)]
+pub(crate) use self::{
+    div_by_2::div_by_2 as verif_div_by_2,
+    lincomb::{
+        lincomb_const_monty_form as verif_lincomb_const_monty_form,
+        lincomb_monty_form as verif_lincomb_monty_form, verif_longa_monty_lincomb,
+    },
+    mul::{
+        mul_montgomery_form as verif_mul_montgomery_form,
+        square_montgomery_form as verif_square_montgomery_form,
+    },
+    pow::{
+        multi_exponentiate_montgomery_form_array as verif_multi_exponentiate_montgomery_form_array,
+        pow_montgomery_form as verif_pow_montgomery_form, verif_compute_powers,
+        verif_multi_exponentiate_montgomery_form_internal,
+    },
+    reduction::verif_montgomery_reduction_inner,
+};
+#[cfg(all(crypto_bigint_verif, feature = "alloc"))]
+pub(crate) use self::{
+    div_by_2::{
+        div_by_2_boxed as verif_div_by_2_boxed,
+        div_by_2_boxed_assign as verif_div_by_2_boxed_assign,
+    },
+    lincomb::{
+        lincomb_boxed_monty_form as verif_lincomb_boxed_monty_form,
+        verif_longa_boxed_monty_lincomb,
+    },
+    pow::multi_exponentiate_montgomery_form_slice as verif_multi_exponentiate_montgomery_form_slice,
+};
+
 #[cfg(feature = "alloc")]
 pub(crate) mod boxed_monty_form;
 
